@@ -187,21 +187,38 @@ def UpdRes.blk : UpdRes → KvBlk
   | .ok b _ => b
   | .failed b _ => b
 
-/-- `_kvblk_updatev`: new value for the record of slot `idx` (the key is the one stored there) -/
-def updatev (b : KvBlk) (idx : Nat) (val : Bytes) : UpdRes :=
+/-- the growing branches of `_kvblk_updatev` (`rsize > kvp->len`): into the gap below the record if it is large enough and the
+longer length vnum still fits the index, otherwise remove + add -/
+def updatevGrow (b : KvBlk) (idx : Nat) (val : Bytes) : UpdRes :=
   let kvp := b.slots.getD idx Slot.free
   let freesz := 2 ^ b.szpow - Gen.KVBLK_HDRSZ - b.idxsz - b.maxoff
   let rsize := recSize kvp.key val
-  if rsize ≤ kvp.len then
+  let koff := kvp.off
+  if koff - prevOff b.slots koff ≥ rsize ∧ ¬ (freesz + vn kvp.len < vn rsize) then
     .ok { b with slots := b.slots.set idx { kvp with len := rsize, val := val } } idx
   else
-    let koff := kvp.off
-    if koff - prevOff b.slots koff ≥ rsize ∧ ¬ (freesz + vn kvp.len < vn rsize) then
-      .ok { b with slots := b.slots.set idx { kvp with len := rsize, val := val } } idx
-    else
-      match addkv (rmkv b idx true) kvp.key val with
-      | .ok b' i => .ok b' i
-      | e => .failed (rmkv b idx true) e
+    match addkv (rmkv b idx true) kvp.key val with
+    | .ok b' i => .ok b' i
+    | e => .failed (rmkv b idx true) e
+
+/-- `_kvblk_updatev`: new value for the record of slot `idx` (the key is the one stored there). A record that would exceed
+`IWKV_MAX_KVSZ` is refused before anything is changed (fix ade5254 of finding C06-MAXKV). -/
+def updatev (b : KvBlk) (idx : Nat) (val : Bytes) : UpdRes :=
+  let kvp := b.slots.getD idx Slot.free
+  let rsize := recSize kvp.key val
+  if rsize ≤ kvp.len then
+    .ok { b with slots := b.slots.set idx { kvp with len := rsize, val := val } } idx
+  else if rsize > Gen.IWKV_MAX_KVSZ then .failed b .maxkvsz
+  else updatevGrow b idx val
+
+/-- HISTORICAL: `_kvblk_updatev` as it was before fix ade5254 (no size test before the removal). Not used by the driver or by
+`step`; kept only as the witness of finding C06-MAXKV (`updatev_old_loses_record`). -/
+def updatevOld (b : KvBlk) (idx : Nat) (val : Bytes) : UpdRes :=
+  let kvp := b.slots.getD idx Slot.free
+  let rsize := recSize kvp.key val
+  if rsize ≤ kvp.len then
+    .ok { b with slots := b.slots.set idx { kvp with len := rsize, val := val } } idx
+  else updatevGrow b idx val
 
 /-! ### bytes -/
 
